@@ -3,7 +3,7 @@ NEXT TreeNext
 CONSTANTS
   Fixes <- EnvFixes
   AtomSet = {"a"}
-  BinOps = {"||", "&&", "==", "+", "/"}
+  BinOps = {"&&", "<", "-", "*", "::"}
   UnOps = {"!", "-"}
   Ctxs = {}
   Depth = 3
